@@ -126,7 +126,10 @@ pub fn subset_prelude(rng: &mut Rng) -> Sub {
     let mut v = vec![];
     let mut n = 1u32;
     let mut f = || { let x = n; n += 1; x };
-    for c in [1u32, 0].iter().take(1 + rng.below(2)) { v.push(i(17, None, None, vec![SOp::one("Capability", *c)])); }
+    // capabilities in order, repeats (also adjacent ones) included
+    let caps = [1u32, 0, 11, 11, 10, 1, 22, 22, 22, 9];
+    let start = rng.below(4);
+    for c in caps.iter().skip(start).take(1 + rng.below(6)) { v.push(i(17, None, None, vec![SOp::one("Capability", *c)])); }
     v.push(i(14, None, None, vec![SOp::one("AddressingModel", rng.below(3) as u32), SOp::one("MemoryModel", rng.below(3) as u32)]));
     let (t_void, t_bool, t_u32, t_i32, t_f32) = (f(), f(), f(), f(), f());
     v.push(i(19, None, Some(t_void), vec![])); v.push(i(20, None, Some(t_bool), vec![]));
@@ -183,7 +186,11 @@ pub fn subset_module(rng: &mut Rng, body_ops: &[SInst]) -> Vec<SInst> {
                 for o in body_ops { let mut o = o.clone(); if o.rid.is_some() { o.rid = Some(n); n += 1; } v.push(o); }
             }
             // a non-switch terminator; branches only to blocks already seen (the lifter resolves jumps eagerly)
-            let t = match rng.below(6) {
+            let t = match rng.below(10) {
+                6 => i(4416, None, None, vec![]),                       // OpTerminateInvocation
+                7 => i(4448, None, None, vec![]),                       // OpIgnoreIntersectionKHR
+                8 => i(4449, None, None, vec![]),                       // OpTerminateRayKHR
+                9 => i(5294, None, None, vec![idr(s.c_u), idr(s.c_u), idr(s.c_u)]),   // OpEmitMeshTasksEXT x y z
                 0 if !labels.is_empty() => i(249, None, None, vec![idr(*rng.pick(&labels))]),
                 1 if !labels.is_empty() => i(250, None, None, vec![idr(s.consts[3]), idr(*rng.pick(&labels)), idr(*rng.pick(&labels))]),
                 2 => i(252, None, None, vec![]), 3 => i(255, None, None, vec![]),
